@@ -15,7 +15,7 @@ func init() {
 	register(&Property{
 		ID:      "C15",
 		NeedSSA: true,
-		Decided: "Structural necessary conditions for freedom from data races on shared state: (globals) no package-level variable of the library is written outside package initialisation, except the two classified ones: the bufio reader pool map, every access to which is preceded by Lock of its mutex in the same function, and the created-by string, written only inside a sync.Once; (immutable) package-level values shared by every writer and reader (encodings, codecs, types) have no method that writes a field of its receiver other than through sync/atomic/pool types; (cow) a map published through atomic.Value is never updated after the Store that publishes it — neither the map itself nor a map stored in it — and a map obtained from Load is never updated; (release) a buffer given back to a pool through a struct field is cleared from that field on every path, so it cannot be returned twice and handed to two owners; (wire) no call passes a struct field in the position of the parameter named after a sibling field (reference-counted level buffers handed to the wrong slot lose their reference); (async) the page-reading goroutine shares nothing but channels and the reader it owns with the consumer; (commit) row-group writers other than through Commit write no state of the parent writer; (construct) see C18.construct for the encryption state of concurrently filled row groups. (reentrant) a function that returns a closure and is not itself only called per operation returns a closure without state of its own: the closure assigns no captured variable, stores through no captured factory-allocated pointer/slice/map and calls no reflect setter on a captured reflect.Value. (atomic) no function both updates (Add/And/Or) and reloads the same atomic field; (globals, cont.) the lock call dominates every access to the guarded map. (commitorder) in ConcurrentRowGroupWriter.Commit the call that records the committed row group (it hands the receiver to a method of the parent writer that stores into writer.rowGroups) is dominated by another call of a parent-writer method that reaches the same recorder: the parent's own buffered rows are written first, on every path. (putclear) a function that hands the object held in a field of its receiver back to a pool (through a callee that puts its parameter into a memory.Pool / sync.Pool without reference counting) overwrites that field on every path to a return.",
+		Decided: "Structural necessary conditions for freedom from data races on shared state: (globals) no package-level variable of the library is written outside package initialisation, except the two classified ones: the bufio reader pool map, every access to which is preceded by Lock of its mutex in the same function, and the created-by string, written only inside a sync.Once; (immutable) package-level values shared by every writer and reader (encodings, codecs, types) have no method that writes a field of its receiver other than through sync/atomic/pool types; (cow) a map published through atomic.Value is never updated after the Store that publishes it — neither the map itself nor a map stored in it — and a map obtained from Load is never updated; (release) a buffer given back to a pool through a struct field is cleared from that field on every path, so it cannot be returned twice and handed to two owners; (wire) no call passes a struct field in the position of the parameter named after a sibling field (reference-counted level buffers handed to the wrong slot lose their reference); (async) the page-reading goroutine shares nothing but channels and the reader it owns with the consumer; (commit) row-group writers other than through Commit write no state of the parent writer; (construct) see C18.construct for the encryption state of concurrently filled row groups. (reentrant) a function that returns a closure and is not itself only called per operation returns a closure without state of its own: the closure assigns no captured variable, stores through no captured factory-allocated pointer/slice/map and calls no reflect setter on a captured reflect.Value. (atomic) no function both updates (Add/And/Or) and reloads the same atomic field; (globals, cont.) the lock call dominates every access to the guarded map. (commitorder) in ConcurrentRowGroupWriter.Commit the call that records the committed row group (it hands the receiver to a method of the parent writer that stores into writer.rowGroups) is dominated by another call of a parent-writer method that reaches the same recorder: the parent's own buffered rows are written first, on every path. (putclear) a function that hands the object held in a field of its receiver back to a pool (through a callee that puts its parameter into a memory.Pool / sync.Pool without reference counting) overwrites that field on every path to a return. (globals, cont.) copying or clearing into the memory of a package-level slice, array or map (seen through phis, re-slicing and module helpers that return the slice they are given), or handing it to a module function that writes through its parameter, counts as a write of the variable.",
 		NotDecided: "deadlock freedom, scheduling, equality with a serial run, races inside dependencies or assembly, correctness of the reference counts as numbers.",
 		Assumptions: []string{"sync, sync/atomic and internal/memory.Pool are correct", "writes through unsafe pointers and reflection are not seen"},
 		Run:         runC15,
@@ -61,6 +61,60 @@ func isInitFunc(fn *ssa.Function) bool {
 	}
 	return bk == "init" || strings.HasPrefix(bk, "init#")
 }
+
+// rawMemoryGlobal: a package-level slice, map or array — memory with no
+// discipline of its own (pools and caches are structs that lock or count).
+func rawMemoryGlobal(g *ssa.Global) bool {
+	if g == nil {
+		return false
+	}
+	switch u := g.Type().(*types.Pointer).Elem().Underlying().(type) {
+	case *types.Slice:
+		return !syncLikeType(u.Elem())
+	case *types.Array:
+		return !syncLikeType(u.Elem())
+	case *types.Map:
+		return true
+	}
+	return false
+}
+
+// rawGlobalBehind: the raw-memory package-level variable whose storage v can
+// denote — through phis, re-slicing, and module helpers that return (a slice
+// of) the slice they are given.
+func rawGlobalBehind(v ssa.Value, depth int) *ssa.Global {
+	if depth > 3 {
+		return nil
+	}
+	for _, o := range Origins(v, OriginOpts{}) {
+		switch o.Kind {
+		case OrgGlobal:
+			if g, ok := o.Val.(*ssa.Global); ok && isModuleGlobal(g) && rawMemoryGlobal(g) {
+				return g
+			}
+			if u, ok := o.Val.(*ssa.UnOp); ok {
+				if g, ok := u.X.(*ssa.Global); ok && isModuleGlobal(g) && rawMemoryGlobal(g) {
+					return g
+				}
+			}
+		case OrgCall:
+			callee := o.Call.Common().StaticCallee()
+			if callee == nil || !inModule(callee) {
+				continue
+			}
+			for _, a := range o.Call.Common().Args {
+				if types.Identical(a.Type(), v.Type()) {
+					if g := rawGlobalBehind(a, depth+1); g != nil {
+						return g
+					}
+				}
+			}
+		}
+	}
+	return nil
+}
+
+var globalsParamWrites = &paramWriteSummaries{memo: map[*ssa.Function]map[int][]chainWrite{}, busy: map[*ssa.Function]bool{}}
 
 func c15Globals(c *Ctx) {
 	p := c.P
@@ -113,6 +167,29 @@ func c15Globals(c *Ctx) {
 			var addr ssa.Value
 			write := false
 			switch x := ins.(type) {
+			case ssa.CallInstruction:
+				// copy/clear into, or a callee that writes through, memory reached
+				// from a package-level variable
+				cc := x.Common()
+				if bi, isB := cc.Value.(*ssa.Builtin); isB {
+					if (bi.Name() == "copy" || bi.Name() == "clear") && len(cc.Args) > 0 {
+						if g := rawGlobalBehind(cc.Args[0], 0); g != nil {
+							nWrites++
+							c.Fail(rule, FuncKey(fn)+" writes package-level "+shortPkg(g.Pkg.Pkg.Path())+g.Name(), ins.Pos(), "%s copies into memory of the package-level variable %s outside package initialisation: every goroutine using the library shares it, and nothing synchronises the write", FuncKey(fn), g.Name())
+						}
+					}
+					return
+				} else if callee := cc.StaticCallee(); callee != nil && inModule(callee) && callee.Blocks != nil {
+					ws := globalsParamWrites.of(callee, 0)
+					for i, a := range cc.Args {
+						if g := globalOf(a); len(ws[i]) > 0 && isModuleGlobal(g) && rawMemoryGlobal(g) {
+							addr, write = a, true
+						}
+					}
+				}
+				if addr == nil {
+					return
+				}
 			case *ssa.Store:
 				addr, write = x.Addr, true
 			case *ssa.MapUpdate:
